@@ -162,7 +162,8 @@ def _classify(p, m, kind, q):
             old = p.board[ty * n + tx]
             flat = bool(old) and old[0].kind.value == 1
             if flat:
-                return "accepted-slide-flatten", True
+                own = old[0].color == p.to_move()
+                return ("accepted-slide-flatten" + ("-multi" if k >= 2 else "") + ("-own-wall" if own else "")), True
             return ("accepted-slide-multi", True) if k >= 2 else ("accepted-slide-1", False)
         return ("accepted-place-opening", True) if p.ply < 2 else ("accepted-place", False)
     if not on:
